@@ -4,6 +4,8 @@ import (
 	"context"
 	"encoding/json"
 	"fmt"
+	"strconv"
+	"strings"
 	"sync"
 	"sync/atomic"
 	"testing"
@@ -52,24 +54,28 @@ func genChurn() *rapid.Generator[ChurnCase] {
 const (
 	churnKeyTag  = "0000000000000000000c4a17"
 	idChurnWrite = 200
+	idChurnProbe = 300 // + n%50: publishes the n-th probe change of refute
 )
 
 type churnWatcher struct {
 	id     int
 	sub    *pubsub.DocSubscription
 	told   atomic.Int64 // stamp of the last DocChanged of the writer
+	probe  atomic.Int64 // number of the last probe change received (see refute)
 	closed atomic.Bool
 	done   chan struct{}
 }
 
 type churnRun struct {
 	cc    ChurnCase
+	seq   int64 // number of the case in this process (part of the actor ids)
 	ps    *pubsub.PubSub
 	clock atomic.Int64
 	churn atomic.Int64
 	// rounds in which a watcher was not told within the cap while the process
 	// was starved of CPU (inconclusive, see lagWatch)
 	starvedMiss atomic.Int64
+	probes      atomic.Int64
 	mu          sync.Mutex
 	fail        *kit.Failure
 	notes       []string
@@ -95,19 +101,21 @@ func (r *churnRun) guard(who string) {
 	}
 }
 
-func churnActor(i int) [12]byte {
-	return [12]byte{0: 0xc1, 1: 0x17, 9: byte(i >> 16), 10: byte(i >> 8), 11: byte(i)}
+// churnActor is the id of actor i of document d in case seq of this process
+// (unique per process, so that a line of the publisher log names one watcher).
+func churnActor(seq int64, d, i int) [12]byte {
+	return [12]byte{0: 0xc1, 1: 0x17, 2: byte(seq >> 8), 3: byte(seq), 4: byte(d), 9: byte(i >> 16), 10: byte(i >> 8), 11: byte(i)}
 }
 
 func (r *churnRun) doc(d int, lw *lagWatch) {
 	defer r.guard("doc loop")
 	ctx := context.Background()
 	key := types.DocRefKey{ProjectID: types.ID(churnKeyTag), DocID: types.ID(fmt.Sprintf("%024x", d+1))}
-	writer := churnActor(idChurnWrite)
+	writer := churnActor(r.seq, d, idChurnWrite)
 	cc := r.cc
 	ws := make([]*churnWatcher, cc.Watchers)
 	for i := range ws {
-		sub, _, err := r.ps.Subscribe(ctx, churnActor(1+i), key, 0)
+		sub, _, err := r.ps.Subscribe(ctx, churnActor(r.seq, d, 1+i), key, 0)
 		if err != nil {
 			r.failf("SUBSCRIBE-ERROR", "doc %d: Subscribe of watcher %d failed: %v", d, i, err)
 			return
@@ -119,6 +127,9 @@ func (r *churnRun) doc(d int, lw *lagWatch) {
 			for ev := range w.sub.Events() {
 				if ev.Type == events.DocChanged && ev.Actor == writer {
 					w.told.Store(r.clock.Add(1))
+				}
+				if n, err := strconv.Atoi(strings.TrimPrefix(ev.Body.Topic, "probe:")); err == nil && strings.HasPrefix(ev.Body.Topic, "probe:") {
+					w.probe.Store(int64(n))
 				}
 			}
 			w.closed.Store(true)
@@ -138,7 +149,7 @@ func (r *churnRun) doc(d int, lw *lagWatch) {
 				default:
 				}
 				id := 1000 + c*100 + n%cc.Pool
-				sub, _, err := r.ps.Subscribe(ctx, churnActor(id), key, 0)
+				sub, _, err := r.ps.Subscribe(ctx, churnActor(r.seq, d, id), key, 0)
 				if err != nil {
 					r.failf("SUBSCRIBE-ERROR", "doc %d: Subscribe of a churning actor failed: %v", d, err)
 					return
@@ -179,7 +190,14 @@ rounds:
 				break
 			}
 			if gotime.Now().After(deadline) {
+				refuted := ""
 				if lw.starved() {
+					if probe := r.refute(ctx, key, d, missing); probe != "" && missing.told.Load() < pEntry {
+						refuted = fmt.Sprintf(" The process was starved of CPU during the case (a 1 ms sleeper overslept %v), but that does not explain it: the publisher logged no failed send to "+
+							"this watcher, and the watcher has received the later change %q, so the batches before it were flushed.", gotime.Duration(lw.max.Load()), probe)
+					}
+				}
+				if lw.starved() && refuted == "" {
 					r.starvedMiss.Add(1)
 					r.mu.Lock()
 					r.notes = append(r.notes, fmt.Sprintf("churn (inconclusive, process starved: a 1 ms sleeper overslept %v): doc %d round %d: watcher actor %d, subscribed and reading "+
@@ -189,8 +207,8 @@ rounds:
 				} else {
 					r.failf("NEVER-TOLD", "doc %d round %d: watcher (actor %d) subscribed before anything was published and is still subscribed, but %v after the DocChanged "+
 						"of the writer was published (stamp %d) it has neither received it (last told at stamp %d) nor had its channel closed; "+
-						"%d other watchers, %d churning goroutines subscribing/unsubscribing other actors on the same key",
-						d, round, missing.id, waitCap, pEntry, missing.told.Load(), cc.Watchers-1, cc.Churners)
+						"%d other watchers, %d churning goroutines subscribing/unsubscribing other actors on the same key.%s",
+						d, round, missing.id, waitCap, pEntry, missing.told.Load(), cc.Watchers-1, cc.Churners, refuted)
 				}
 				break rounds // (the watchers still unsubscribe below: the leak checks need that)
 			}
@@ -217,8 +235,33 @@ rounds:
 	}
 }
 
+// refute checks the excuse "a send to this watcher may have timed out because
+// the process was starved" (see (*world).refute): a probe change is published
+// under a fresh actor; if the watcher receives it and the publisher has logged
+// no failed send to the watcher, it returns the probe's tag, else "".
+func (r *churnRun) refute(ctx context.Context, key types.DocRefKey, d int, w *churnWatcher) string {
+	if tap == nil || !tap.ok() {
+		return ""
+	}
+	n := r.probes.Add(1)
+	tag := fmt.Sprintf("probe:%d", n)
+	prober := churnActor(r.seq, d, idChurnProbe+int(n%50))
+	r.ps.Publish(ctx, prober, events.DocEvent{Type: events.DocChanged, Key: key, Actor: prober, Body: events.DocEventBody{Topic: tag}})
+	deadline := gotime.Now().Add(waitCap)
+	for w.probe.Load() != n {
+		if w.closed.Load() || gotime.Now().After(deadline) {
+			return ""
+		}
+		gotime.Sleep(gotime.Millisecond)
+	}
+	if !tap.barrier(waitCap) || tap.timeoutsOf(churnActor(r.seq, d, w.id)) > 0 {
+		return ""
+	}
+	return tag
+}
+
 func evalChurn(cc ChurnCase) (fail *kit.Failure, churn int, starved bool, starvedMiss []string) {
-	r := &churnRun{cc: cc, ps: pubsub.New()}
+	r := &churnRun{cc: cc, seq: caseSeq.Add(1), ps: pubsub.New()}
 	lw := startLagWatch()
 	defer lw.close()
 	var wg sync.WaitGroup
